@@ -290,8 +290,9 @@ def find_item(src, toks, path):
     item = None
     for sel in path:
         sel = sel.strip()
-        kw, _, rest = sel.partition(' ')
-        rest = rest.strip()
+        mkw = re.match(r'[a-z_]+', sel)
+        kw = mkw.group(0) if mkw else ''
+        rest = sel[len(kw):].strip()
         cands = []
         for it in items_in(toks, lo, hi):
             if it.kind != kw:
@@ -301,7 +302,7 @@ def find_item(src, toks, path):
                 if kw == 'trait':
                     ok = toks[it.tkw + 1].text == rest
                 else:
-                    ok = re.fullmatch(rest, hdr[len('impl'):].strip()) is not None
+                    ok = re.fullmatch(rest.replace(' ', ''), hdr[len('impl'):].replace(' ', '')) is not None
                 if ok:
                     cands.append(it)
             elif it.name == rest:
